@@ -205,11 +205,19 @@ CLAIMS = {
              "and none for any non-header; the tokenizer model records no diagnostic on any statement line of unbounded length built "
              "from identifiers, single spaces, one-character operators, brackets and 118 listed atoms (constants of every family of "
              "Spec/CConst.v inside their guards, keywords, multi-character operators); all-Notice diagnostics give OK and all-OK "
-             "files give exit 0.  Refuted in the model: K1 (i = 0xb3ba; gives Error, exit 1).  TESTED, not proved: the silence of the "
-             "other 37 checks and the complete-unit claim - generated conforming programs (one third on the 25/5/4/5/80 limits, one "
-             "tenth through the real CLI) with a measured construct histogram, and grids of the known false-positive families.",
+             "files give exit 0.  ELEVEN of the 39 checks are proved silent AS A WHOLE on conforming statements, about functions "
+             "regenerated from the source on every run, unbounded in the program (C01_checks_silent): CheckTernary, CheckLabel "
+             "(hypothesis K: token kinds, tied to the rendered text by conforming_text_kinds), CheckLineLen, CheckManyInstructions "
+             "(P: columns, from C09/C03), CheckSpacing, CheckExpressionStatement (statement shape at every position, by loop "
+             "invariant), CheckEmptyLine, CheckLineIndent (V: the view at the statement, scope name and indentation derived from "
+             "the scope-trace model, history given), CheckFunctionsCount (trace model), CheckHeader, "
+             "CheckPreprocessorProtection; five more in part.  K1 (i = 0xb3ba;) is accepted since the repair (C01_accepted_K1).  "
+             "TESTED, not proved: the silence of the other 28 checks (listed in Props/C01.v and in the evidence) and the "
+             "complete-unit claim - generated conforming programs (one third on the 25/5/4/5/80 limits, one tenth through the real "
+             "CLI alone and in every position of several-file invocations in both formats) with a measured construct histogram, "
+             "and grids of the known false-positive families.",
         ref="DESIGN.md 4.1", technique="Rocq proof (composition of header, guard, lexer-line and verdict theorems over an emitter table from source) + conforming-program search",
-        note=NOTE + "Partial: 37 checks are only searched; programs are generated by the Python renderer, not a Coq AST."),
+        note=NOTE + "Partial: 28 checks are only searched; which primaries matched (the history) is a hypothesis; programs are generated by the Python renderer, not a Coq AST."),
     "C02": dict(
         text="PARTIAL.  29 of the 84 catalogue operators are proved for EVERY token list and context view, about Gallina functions "
              "regenerated statement by statement from the current source of 10 checks on every run (fail closed): the 7 checks "
